@@ -287,6 +287,44 @@ def r07_7(prog, cfg):
                       e["line"], witness={"path": guards.path_lines(f, list(path))})
             else:
                 r.ok(f, key, "assuming -1, every return of the object keeps (or sets) failed_type", e["line"])
+        # the failure code written as a constant: `er.encoded = -1` on an object that may hold a success result
+        from .c15 import must_pass
+        n = 0
+        for b, i, e in f.events("assign"):
+            lt = strip_casts(e.get("lhs_tree"))
+            if not (isinstance(lt, list) and lt and lt[0] == "member" and lt[2] == "encoded" and not lt[3] and is_var(lt[1])):
+                continue
+            if e.get("op") != "=" or "rhs" not in e or const_of(e["rhs"]["tree"]) != -1:
+                continue
+            var = strip_casts(lt[1])[1]
+            n += 1
+            key = "%s.encoded=-1#%d" % (var.split("@")[0], n)
+
+            def names(y, var=var):
+                if y["k"] != "assign" or y.get("op") != "=" or "rhs" not in y:
+                    return False
+                l2 = strip_casts(y.get("lhs_tree"))
+                return (isinstance(l2, list) and l2 and l2[0] == "member" and l2[2] == "failed_type" and is_var(l2[1], var)
+                        and const_of(y["rhs"]["tree"]) != 0)
+            bad = None
+            for rb, ri, re_ in f.returns():
+                ex = re_.get("expr")
+                if not (ex and is_var(ex["tree"], var)):
+                    continue
+                if rb.id == b.id and ri > i:
+                    okp = any(names(y) for y in b.ev[i + 1:ri])
+                elif rb.id in f.reachable_from(b.succs()):
+                    okp = any(names(y) for y in b.ev[i + 1:]) or all(must_pass(f, s_, rb.id, ri, names) for s_ in b.succs())
+                else:
+                    continue
+                if not okp:
+                    bad = re_
+                    break
+            if bad is None:
+                r.ok(f, key, "failed_type is given a type on every path from here to a return of the object", e["line"])
+            else:
+                r.bad(f, key, "`%s.encoded = -1` and the object is returned at line %s without failed_type being set: what it holds is the "
+                              "0 of an earlier success, and asn_encode_internal reports `no such codec` (ENOENT)" % (var.split("@")[0], bad.get("line")), e["line"])
     for i in r.insts:
         i.config = cfg
     return r
